@@ -136,7 +136,7 @@ def c13_scenarios(tier):
             faults += ["drop:prepare:0:%d" % to, "err:execute:0:%d" % to]
         for a, b in itertools.combinations(ids, 2):
             for kind in ("drop", "share", "vvecalter", "vvecshort", "vvecempty", "vvecone", "vveclong", "vveclongzero", "replyshare", "replyvvecshort",
-                         "replyvvecempty", "replyvveclong"):
+                         "replyvvecempty", "replyvveclong", "dupalter", "dupalter0"):
                 faults.append("%s:contribute:%d:%d" % (kind, a, b))
         for f in faults:
             k += 1
@@ -327,6 +327,14 @@ def c17_scenarios(r, tier):
         T.append(("failed-execute-then-commit-%d-%d" % (pa, pb_), [hline("hprepare", pa, p, F, 2, [pa, pb_]), hline("hexecute", pa, p, F), hline("hcommit", pa, p, F),
                                                                   hline("hexecute", pa, p, F), hline("hcommit", pa, p, F), "holds %s" % hx(F),
                                                                   hline("habort", pa, p, F), hline("hprepare", pa, p, F, 2, [pa, pb_]), hline("hcommit", pa, p, F), "holds %s" % hx(F)]))
+    # a generation that ended early (abort / commit) and was started again under the same name: the NEW generation lives for
+    # the full timeout from ITS start, whatever was scheduled for the old one (3 s timeout: old one started at 0, new one at
+    # 1.5 s; at 3.5 s the new one is 2 s old — active; at 5 s it is gone)
+    for (i_, how) in ((1, "habort"), (2, "habort"), (3, "habort")):
+        R = "DW/lr%d" % i_
+        T.append(("restarted-generation-keeps-its-timeout-%d" % i_, [hline("hprepare", i_, p, R, t, ids), hline(how, i_, p, R), "sleep 1500", hline("hprepare", i_, p, R, t, ids),
+                                                                     "sleep 2000", hline("hprepare", i_, p, R, t, ids), hline("hexecute", i_, p, R) if False else hline("hprepare", i_, p, R, t, ids),
+                                                                     hline("habort", i_, p, R), hline("habort", i_, p, R)]))
     T.append(("unknown-participant", [hline("hprepare", i, p, U, 3, [1, 2, 3, 4]) for i in ids] + [hline("hexecute", 1, p, U), hline("hcommit", 1, p, U), hline("hcommit", 2, p, U),
                                       hline("hcommit", 3, p, U), "holds %s" % hx(U), hline("habort", 1, p, U), hline("habort", 2, p, U), hline("habort", 3, p, U)]))
     # prepares for one name arriving at the same moment: exactly one may be accepted (a wide participant list makes
